@@ -5,6 +5,20 @@
    KNOWN memory_assertion_key_pipe_collision : PROP fails, the faithful model agrees with the
           implementation, and the model's trigger flag pipe_collision is raised *)
 
+(* Cross-check of extraction: with ORACLE_DUMP=<file> one line per history is appended with what
+   the EXTRACTED model computed: per operation the result class and a checksum of the returned
+   list; bin/coqreplay_c31.py recomputes the same numbers inside Coq (vm_compute). *)
+let dump_chan = match Sys.getenv_opt "ORACLE_DUMP" with
+  | Some p when p <> "" -> Some (open_out_gen [Open_append; Open_creat] 0o644 p)
+  | _ -> None
+let chk_add acc x = (acc * 31 + x + 7) mod 1000003
+let chk_bytes acc (b : n list) = List.fold_left (fun a x -> chk_add a (int_of_n x)) acc b
+let chk_asrts l = List.fold_left (fun a x -> chk_add (chk_bytes a x.a_enc) 256) 0 l
+let dump id nums =
+  match dump_chan with
+  | Some ch -> output_string ch (id ^ " " ^ String.concat " " (List.map string_of_int nums) ^ "\n"); flush ch
+  | None -> ()
+
 let mk_asrt v =
   match as_list v with
   | [enc; size; wf; valid] ->
@@ -32,7 +46,7 @@ let serr_class e =
   match e with
   | EInvalidArgument -> 1 | EModelNotFound -> 2 | ETooLarge -> 4 | EValidation -> 5 | EInternal -> 7
 
-let f _id vs =
+let f id vs =
   match vs with
   | [layer; backend; ops] ->
     let layer = as_int layer and backend = as_int backend in
@@ -43,6 +57,9 @@ let f _id vs =
         match o.kind with
         | 0 -> SAddModel (o.s, o.m) | 1 -> SWrite (o.s, o.m, o.sent) | _ -> SRead (o.s, o.m)) obs in
       let tr = if backend = 0 then mem_s_trace h else sql_s_trace h in
+      dump id (List.concat_map (fun (_, out) -> match out with
+        | SOk -> [0; 0] | SList l -> [1; chk_asrts l]
+        | SErr e -> [10 + (match e with EInvalidArgument -> 1 | EModelNotFound -> 2 | ETooLarge -> 4 | EValidation -> 5 | EInternal -> 7); 0]) tr);
       (* DIFF *)
       let rec cmp i tr obs =
         match tr, obs with
@@ -72,6 +89,7 @@ let f _id vs =
     end else begin
       let h = List.map (fun o -> if o.kind = 1 then DWrite (o.s, o.m, o.sent) else DRead (o.s, o.m)) obs in
       let tr = if backend = 0 then mem_d_trace h else sql_d_trace h in
+      dump id (List.concat_map (fun (_, out) -> match out with DOk -> [0; 0] | DList l -> [1; chk_asrts l] | DErr -> [2; 0]) tr);
       let rec cmp i tr obs =
         match tr, obs with
         | [], [] -> None
